@@ -14,14 +14,26 @@ Definition sentinel_eqb (x y : sentinel) : bool :=
 Definition nstore_eqb (x y : nstore) : bool := tab_eqb sentinel_eqb (n_ent x) (n_ent y) && tab_eqb Z.eqb (n_dep x) (n_dep y).
 Definition emb_sentinel_eqb := emb_out_eqb nstore_eqb.
 
-(* verdict of checkPillarNameStatic, observed for the name carried by the call: (1|0, name, []) *)
+(* observed verdicts, in the last input slot: (1|0, name, []) = checkPillarNameStatic of the name carried by the call;
+   (2, public key ++ signature, key-id hash) = CheckSwapSignature accepted, with PubKeyToKeyIdHash of the key *)
 Definition name_ok_of (tbl : list (Z * bytes * bytes)) (name : bytes) : bool :=
-  match find (fun '(_, n, _) => bytes_eqb n name) tbl with Some (ok, _, _) => ok =? 1 | None => false end.
+  match find (fun '(k, n, _) => negb (k =? 2) && bytes_eqb n name) tbl with Some (ok, _, _) => ok =? 1 | None => false end.
+Definition legacy_key_of (tbl : list (Z * bytes * bytes)) (from pub sig : bytes) : option bytes :=
+  match find (fun '(k, n, _) => (k =? 2) && bytes_eqb n (pub ++ sig)) tbl with Some (_, _, h) => Some h | None => None end.
 Definition emb_pillar_run (i : emb_in2 lstore) : emb_out lstore :=
-  let '(id, e, self, st, b, s, donate, names) := i in
-  run_emb (if id =? 1 then pillar_revoke_receive (name_ok_of names) e
-           else if id =? 2 then pillar_deposit_receive else pillar_withdraw_receive) donate st b s.
+  let '(id, e, self, st, b, s, donate, obs) := i in
+  let nk := name_ok_of obs in
+  run_emb (if id =? 1 then pillar_revoke_receive nk e
+           else if id =? 2 then pillar_deposit_receive else if id =? 3 then pillar_withdraw_receive
+           else if id =? 4 then register_receive nk e else if id =? 5 then legacy_receive nk (legacy_key_of obs) e
+           else if id =? 6 then update_pillar_receive nk e else if id =? 7 then delegate_receive nk
+           else undelegate_receive) (* the burn of the consumed QSR is a call to the token contract *)
+          donate st b s.
 Definition pillar_eqb (x y : pillar) : bool :=
-  bytes_eqb (l_owner x) (l_owner y) && (l_amount x =? l_amount y) && (l_reg x =? l_reg y) && (l_revoke x =? l_revoke y).
-Definition lstore_eqb (x y : lstore) : bool := tab_eqb pillar_eqb (l_pillars x) (l_pillars y) && tab_eqb Z.eqb (l_dep x) (l_dep y).
+  bytes_eqb (l_owner x) (l_owner y) && (l_amount x =? l_amount y) && (l_reg x =? l_reg y) && (l_revoke x =? l_revoke y) &&
+  bytes_eqb (l_producer x) (l_producer y) && bytes_eqb (l_reward x) (l_reward y) && (l_pct_block x =? l_pct_block y) &&
+  (l_pct_deleg x =? l_pct_deleg y) && (l_type x =? l_type y).
+Definition lstore_eqb (x y : lstore) : bool :=
+  tab_eqb pillar_eqb (l_pillars x) (l_pillars y) && tab_eqb Z.eqb (l_dep x) (l_dep y) && tab_eqb bytes_eqb (l_producing x) (l_producing y) &&
+  tab_eqb bytes_eqb (l_deleg x) (l_deleg y) && tab_eqb Z.eqb (l_legacy x) (l_legacy y).
 Definition emb_pillar_eqb := emb_out_eqb lstore_eqb.
